@@ -2099,23 +2099,28 @@ def source_helper_attrs(repo, adt, helper="serde"):
     norm = lambda x: re.sub(r"\s+", "", x)
     ty_attrs = [norm(m) for m in pat.findall("\n".join(top))]
     fields = {}
-    text = "\n".join(body[1:]) if len(body) > 1 else ""
+    text = "\n".join(body)
+    # attributes may contain commas and span lines: take them out first (blanked in place, so that positions still line up),
+    # then attach each to the next field declaration (`name:` at the start of a line, comments removed)
+    events = [(m.start(), "attr", norm(m.group(1))) for m in pat.finditer(text)]
+    blank = pat.sub(lambda m: " " * (m.end() - m.start()), text)
+    blank = re.sub(r"//[^\n]*", lambda m: " " * (m.end() - m.start()), blank)
+    for m in re.finditer(r"(?m)^[ \t]*(?:pub(?:\([^)]*\))?[ \t]+)?([A-Za-z_][A-Za-z0-9_]*)[ \t]*:(?!:)", blank):
+        events.append((m.start(1), "field", m.group(1)))
     pending = []
-    for chunk in re.split(r"(?<=[,{])", "\n".join(body)):
-        found = [norm(m) for m in pat.findall(chunk)]
-        stripped = pat.sub("", chunk)
-        m = re.search(r"(?:pub(?:\([^)]*\))?\s+)?([A-Za-z_][A-Za-z0-9_]*)\s*:", re.sub(r"///.*|//.*", "", stripped))
-        pending += found
-        if m:
+    for _, kind_, val_ in sorted(events):
+        if kind_ == "attr":
+            pending.append(val_)
+        else:
             if pending:
-                fields.setdefault(m.group(1), []).extend(pending)
+                fields.setdefault(val_, []).extend(pending)
             pending = []
     if pending:
         fields.setdefault("?", []).extend(pending)
     return ty_attrs, fields
 
 
-def check_config_immutable(ob, prog, fields, adt="anemo::config::Config", key="config"):
+def check_config_immutable(ob, prog, fields, adt="anemo::config::Config", key="config", repo=None):
     """What the application configured is what the library uses: nothing in the library writes a Config field after the
     value was built (no "normalisation" in the builder, no clamp, no wrap-around cast stored back)."""
     n = 0
@@ -2129,6 +2134,22 @@ def check_config_immutable(ob, prog, fields, adt="anemo::config::Config", key="c
                 derived = "_::" in b.path or "<impl" in b.path or own.startswith(f"<{adt} as")
                 ob.require(derived, f"{key}/{fld}/written/{own}", f"{adt.split('::')[-1]}.{fld} is modified in {b.path} ({kind}) - the configured value is replaced behind the application's back", b.path, b.loc(bb))
     ob.floor(n, len(fields), f"accesses of {adt.split('::')[-1]} fields {list(fields)}")
+    # ... and what a configuration file says is what the Config holds: the fields are (de)serialised by the derived impls
+    # as they are - no `deserialize_with` / `with` / `from` hook and no custom `default = ".."` function that would turn one
+    # configured value (or the absence of one) into another
+    a = prog.adts.get(adt)
+    if a is None:
+        raise AnchorLost(f"definition of {adt}")
+    ty_at, f_at = source_helper_attrs(repo or "/repo", a)
+    def plain(at_):
+        parts = [x for x in at_.split(",") if x]          # normalised: no whitespace
+        return all(x in ("default", "skip_serializing", "skip_deserializing", "skip") or x.startswith(("skip_serializing_if=", "rename=", "alias=", "rename_all=")) or x == "deny_unknown_fields" for x in parts)
+    for at_ in ty_at:
+        ob.require(plain(at_), f"{key}/serde/type-attribute/{at_[:40]}", f"{adt.split('::')[-1]} carries #[serde({at_})]: its (de)serialisation is not the plain derived one", adt)
+    for fld in fields:
+        for at_ in f_at.get(fld, []):
+            ob.require(plain(at_), f"{key}/{fld}/serde-hook", f"{adt.split('::')[-1]}.{fld} carries #[serde({at_})]: a configured value can be changed while it is read from / written to a file", adt)
+    ob.count(len(fields))
 
 
 def check_peer_id_identity_derived(ob, prog, key="PeerId"):
@@ -2174,12 +2195,49 @@ def check_builder_setters(ob, prog, ty, setters, key="builder"):
                     fs = [e.get("n") for e in st["lhs"]["p"] if isinstance(e, dict) and "n" in e]
                     if fs:
                         writes.append((fs[0], o.of_rvalue(st["rv"])))
+        if not writes:
+            # struct-update form: `Self { x: Some(v.into()), ..self }` - a new value whose other fields are the old ones
+            r0 = strip_identity(o.of_local(0))
+            if r0[0] == "agg" and len(r0) > 4 and len(r0[3]) == len(r0[4]) and field in r0[4]:
+                for op_, fname in zip(r0[3], r0[4]):
+                    if fname == field:
+                        writes.append((field, op_))
+                    else:
+                        u_ = strip_identity(op_)
+                        if not (u_[0] == "field" and u_[2] == fname and is_param(strip_identity(u_[1]), "self")):
+                            writes.append((fname, op_))
         okw = [w for w in writes if w[0] == field]
         other = [w[0] for w in writes if w[0] != field]
         v = strip_identity(okw[0][1]) if len(okw) == 1 else ("?",)
-        oks = v[0] == "agg" and str(v[2]).endswith("Option::Some") and any((x[0] == "param" and x[2] == param) for x in walk(v))
+        def as_given(u, depth=0):
+            # the parameter itself, possibly converted by the std conversion traits and wrapped in Some / mapped over an Option -
+            # nothing of the library's own making in between (a helper that "normalises" the value is inlined and shows here)
+            u = strip_identity(u)
+            if u[0] == "param":
+                return u[2] == param
+            if depth > 4:
+                return False
+            if u[0] == "agg" and str(u[2]).endswith("Option::Some") and len(u[3]) == 1:
+                return as_given(u[3][0], depth + 1)
+            if u[0] == "field" and u[2] == "0" and u[1][0] == "variant" and u[1][2] == "Some":
+                return as_given(u[1][1], depth + 1)          # the payload of an Option parameter (`Some(n) => Some(n.into())`)
+            if u[0] == "phi":
+                alts_ = [strip_identity(a_) for a_ in u[1]]
+                none_ = [a_ for a_ in alts_ if a_[0] == "agg" and str(a_[2]).endswith("Option::None")]
+                rest_ = [a_ for a_ in alts_ if a_ not in none_]
+                return bool(rest_) and all(as_given(a_, depth + 1) for a_ in rest_)
+            if u[0] == "call" and name_matches(u[1], ("convert::Into::into", "convert::From::from", "borrow::ToOwned::to_owned", "string::ToString::to_string", "clone::Clone::clone",
+                                                      "BoxLayer::new")) and len(u[2]) == 1:          # (tower's type-erasing box of a layer: the layer itself)
+                return as_given(u[2][0], depth + 1)
+            if u[0] == "call" and name_matches(u[1], "Option::map") and len(u[2]) == 2:
+                f_ = show(u[2][1])
+                return as_given(u[2][0], depth + 1) and any(k_ in f_ for k_ in ("Into::into", "From::from", "ToOwned::to_owned", "ToString::to_string")) and "anemo" not in f_
+            return False
+        oks = as_given(v)
         ob.require(len(okw) == 1 and oks and not other, f"{key}/{name}", f"{ty.split('::')[-1]}::{name} stores {show(v)[:80]} in `{field}`" + (f" and also writes {other}" if other else ""), b.path)
-        ob.require(is_param(strip_identity(o.of_local(0)), "self"), f"{key}/{name}/returns-self", f"{ty.split('::')[-1]}::{name} does not return the builder it was called on", b.path)
+        r0_ = strip_identity(o.of_local(0))
+        ob.require(is_param(r0_, "self") or (r0_[0] == "agg" and str(r0_[2]).startswith(ty) and len(okw) == 1 and not other), f"{key}/{name}/returns-self",
+                   f"{ty.split('::')[-1]}::{name} does not return the builder it was called on", b.path)
 
 
 def _impl_body(prog, ty, trait_frag, method):
@@ -2202,11 +2260,19 @@ def check_fieldwise_clone(ob, prog, ty, key=None):
         return
     ok = t[0] == "agg" and len(t) > 4 and len(t[3]) == len(t[4]) and bool(t[3])
     if ok:
+        def peel(u):
+            # only what a derived impl does: take a reference, copy, or call Clone::clone on the field itself - not `Deref::deref`
+            # (clone of what an Arc points to = a deep copy) and not a re-wrapping constructor (`Arc::new(..)` = a fresh cell)
+            while True:
+                if u[0] in ("ref", "deref"):
+                    u = u[1]
+                elif u[0] == "call" and name_matches(u[1], "clone::Clone::clone") and len(u[2]) == 1:
+                    u = u[2][0]
+                else:
+                    return u
         for op_, fname in zip(t[3], t[4]):
-            u = strip_identity(op_)
-            while u[0] == "call" and name_matches(u[1], "clone::Clone::clone") and u[2]:
-                u = strip_identity(u[2][0])
-            ok = ok and u[0] == "field" and u[2] == fname and is_param(u[1], "self")
+            u = peel(op_)
+            ok = ok and u[0] == "field" and u[2] == fname and is_param(strip_identity(u[1]), "self")
     ob.require(ok, f"{key}/fieldwise", f"<{ty} as Clone>::clone builds {show(t)[:140]} - not a field-by-field copy", b.path)
 
 
